@@ -14,6 +14,17 @@ After every step the harness records the step's result and a structural observat
 driver replays the same history on the model (Model/Session.lean) and evaluates the declarative
 specification (Spec/C19.lean) on the IMPLEMENTATION's trace.
 
+Dimensions the model does NOT see (the unchanged code must behave the same along them; a change that makes it
+depend on them shows up as a disagreement and, where the property is hurt, as a spec failure):
+  form    per received message (login Response, LogoutResponse, IdP-initiated LogoutRequest): compact as
+          pysaml2 writes it / white space between elements / white space around the Issuer text / other
+          namespace prefixes — the code's own canonicalisation (strip) is part of the bookkeeping contract
+  skew    `accepted_time_diff` of the SP (unset, 0, 60, 300): the stored expiry must stay the assertion's own
+          NotOnOrAfter / SessionNotOnOrAfter
+  stores  caller-supplied `identity_cache` / `state_cache` shared by several Saml2Client objects, steps
+          dispatched to different objects (or one new object per step); observation goes through the
+          supplied stores and a separate observer object
+
 Abstraction used for the model's input (all plain numbers):
   subject k   <-> the k-th NameID of the case's subject list (entries of NAMEID_POOL, pairwise
                   different under `ident.code` and under `SamlBase.__eq__`)
@@ -112,16 +123,39 @@ def _server(j, b):
     return _cache[key]
 
 
-def _sp_conf(binds):
-    key = ("spconf", tuple(binds))
+def _sp_conf(binds, skew=None):
+    key = ("spconf", tuple(binds), skew)
     if key not in _cache:
         from saml2.config import SPConfig
 
         c = SPConfig()
+        extra = {} if skew is None else {"accepted_time_diff": skew}
         c.load(S.sp_config(idp_entities=[_idp_entity(j, b) for j, b in enumerate(binds)],
-                           sp={"want_response_signed": False, "allow_unsolicited": True}))
+                           sp={"want_response_signed": False, "allow_unsolicited": True}, **extra))
         _cache[key] = c
     return _cache[key]
+
+
+class _DictStore(dict):
+    """a caller-supplied pending-state store that is a dict subclass"""
+
+
+PREFILLED_KEY = "id-somebody-elses-attribute-query"
+
+
+def reform(xml, form):
+    """The same message in another (schema-valid) form."""
+    if form == "pretty":
+        return re.sub(r">\s*<", ">\n  <", xml)
+    if form == "issuerpad":
+        return re.sub(r"(<(?:\w+:)?Issuer\b[^>]*>)([^<]+)(</)", r"\1\n      \2\n    \3", xml)
+    if form == "prefix":
+        return re.sub(r"\bns(\d):", r"q\1x:", re.sub(r"xmlns:ns(\d)=", r"xmlns:q\1x=", xml))
+    return xml
+
+
+def _deflate_b64(xml):
+    return base64.b64encode(zlib.compress(xml.encode("utf-8"))[2:-4]).decode("ascii")
 
 
 class _HttpResp:
@@ -174,8 +208,35 @@ class World:
         self.cfg = cfg
         self.binds = [d["b"] for d in cfg["idps"]]
         self.soap = [d.get("soap", "ok") for d in cfg["idps"]]
-        self.sp = Saml2Client(config=_sp_conf(self.binds))
-        self.sp.send = self._send
+        conf = _sp_conf(self.binds, cfg.get("skew"))
+        stores = cfg.get("stores", "default")
+        self.shared = stores != "default"
+        self.prefilled = set()
+        if self.shared:
+            from saml2.cache import Cache
+
+            self.ident = Cache()
+            self.store = _DictStore() if stores == "shared-dictsub" else {}
+            if stores == "shared-prefilled":
+                self.store[PREFILLED_KEY] = {"entity_id": IDP_IDS[0], "operation": "AttributeQuery",
+                                             "subject_id": "x", "sign": False}
+                self.prefilled = {PREFILLED_KEY}
+
+        def mk():
+            if self.shared:
+                c = Saml2Client(config=conf, identity_cache=self.ident, state_cache=self.store)
+            else:
+                c = Saml2Client(config=conf)
+            c.send = self._send
+            return c
+
+        self.mk = mk
+        n = cfg.get("clients", 1)
+        self.perstep = self.shared and n == "perstep"
+        self.clients = [mk() for _ in range(n if (self.shared and isinstance(n, int)) else 1)]
+        self.sp = self.clients[0]
+        # what the application sees: the stores it supplied, read through an object of its own
+        self.observer = mk() if self.shared else self.sp
         self.nids = [_nameid(NAMEID_POOL[k]) for k in cfg["subjects"]]
         from saml2.ident import code
 
@@ -240,8 +301,13 @@ class World:
         info = idp.apply_binding(S.BINDING_SOAP, str(resp), "", "", response=True)
         return _HttpResp(200, info["data"])
 
+    def pending_store(self):
+        """The pending-operation store the application observes (its own one if it supplied one)."""
+        st = self.store if self.shared else self.sp.state
+        return {k: v for k, v in st.items() if k not in self.prefilled}
+
     def observe(self):
-        sp = self.sp
+        sp = self.observer
         subs = sorted(k for k in (self.subj_index(n) for n in sp.users.subjects()))
         srcs = []
         logged = []
@@ -253,9 +319,10 @@ class World:
             if sp.is_logged_in(n):
                 logged.append(k)
         pend = []
-        for real in sp.state.keys():
+        state = self.pending_store()
+        for real in state.keys():
             if real not in self.rid:  # a record the harness did not see being created
-                self.rid[real] = [self.step_no, self.idp_index(sp.state[real].get("entity_id"))]
+                self.rid[real] = [self.step_no, self.idp_index(state[real].get("entity_id"))]
             pend.append(self.rid[real])
         return {"subjects": subs, "sources": srcs, "pending": pend, "logged_in": logged}
 
@@ -266,6 +333,10 @@ class World:
         self.soap_sent = []
         if op == "advance":
             self.now += st["dt"]
+        if self.perstep:
+            self.sp = self.mk()
+        else:
+            self.sp = self.clients[st.get("c", 0) % len(self.clients)]
         with S.clock(self.now):
             out = getattr(self, "op_" + op)(st)
             obs = self.observe()
@@ -308,6 +379,7 @@ class World:
             xml = xml.replace("Audience>%s<" % S.SP_ID, "Audience>%s<" % S.SP2_ID)
         elif kind == "destination":
             xml = xml.replace('Destination="%s"' % S.SP_ACS_POST, 'Destination="https://evil.example/acs"')
+        xml = reform(xml, st.get("form"))
         try:
             r = self.sp.parse_authn_request_response(base64.b64encode(xml.encode("utf-8")).decode("ascii"),
                                                      S.BINDING_POST, outstanding={irt: "/"})
@@ -389,8 +461,8 @@ class World:
             k = "status"
         elif isinstance(e, (UnsupportedBinding,)):
             k = "unsupported"
-        else:
-            raise e
+        else:  # some other pysaml2 error class escaping the real call (the callers catch nothing else)
+            k = "other:" + type(e).__name__
         return {"r": "error", "e": k, "soap": list(self.soap_sent)}
 
     def op_logout(self, st):
@@ -406,7 +478,7 @@ class World:
 
     def resolve(self, st):
         """Which request id the delivered response claims to answer: [step, idp] or None (never issued)."""
-        pend = [self.rid[k] for k in self.sp.state.keys()]
+        pend = [self.rid[k] for k in self.pending_store().keys()]
         if st["sel"] == "pending" and pend:
             return pend[st["n"] % len(pend)]
         if st["sel"] == "dup":
@@ -434,13 +506,8 @@ class World:
         idp = _server(j, self.binds[j])
         req = samlp.LogoutRequest(id=real, issuer=saml.Issuer(text=S.SP_ID))
         resp = idp.create_logout_response(req, bindings=[BIND[b]], sign=False)
-        info = idp.apply_binding(BIND[b], str(resp), resp.destination, "rs", response=True)
-        hdrs = dict(info.get("headers") or [])
-        if b == "redirect":
-            q = urllib.parse.parse_qs(urllib.parse.urlsplit(hdrs["Location"]).query)
-            wire = q["SAMLResponse"][0]
-        else:
-            wire = base64.b64encode(str(resp).encode("utf-8")).decode("ascii")
+        xml = reform(str(resp), st.get("form"))
+        wire = _deflate_b64(xml) if b == "redirect" else base64.b64encode(xml.encode("utf-8")).decode("ascii")
         parsed = self.sp.parse_logout_request_response(wire, BIND[b])
         if parsed is None:
             raise RuntimeError("harness: LogoutResponse produced by Server was not accepted")
@@ -462,14 +529,13 @@ class World:
         rid, req = idp.create_logout_request(dest, S.SP_ID, name_id=self.nids[st["named"]],
                                              reason="urn:oasis:names:tc:SAML:2.0:logout:admin",
                                              expire=S.fmt_time(self.now + 300), sign=False)
-        info = idp.apply_binding(BIND[b], str(req), dest, "rs")
+        xml = reform(str(req), st.get("form"))
         if b == "redirect":
-            hdrs = dict(info.get("headers") or [])
-            wire = urllib.parse.parse_qs(urllib.parse.urlsplit(hdrs["Location"]).query)["SAMLRequest"][0]
+            wire = _deflate_b64(xml)
         elif b == "post":
-            wire = base64.b64encode(str(req).encode("utf-8")).decode("ascii")
+            wire = base64.b64encode(xml.encode("utf-8")).decode("ascii")
         else:
-            wire = info["data"]
+            wire = idp.apply_binding(BIND[b], xml, dest, "rs")["data"]
         try:
             out = self.sp.handle_logout_request(wire, self.nids[st["current"]], BIND[b], sign=False, relay_state="rs")
         except SAMLError as e:
@@ -509,6 +575,13 @@ def _idp_cfg(b, soap="ok"):
     return d
 
 
+FORMS = ["pretty", "issuerpad", "prefix"]
+
+
+def _form(rng):
+    return None if rng.random() < 0.65 else rng.choice(FORMS)
+
+
 def gen_history(rng, max_len=40, nosoap=False):
     n_idp = rng.choice([1, 2, 2, 3, 3])
     n_subj = rng.choice([1, 2, 2, 3])
@@ -519,6 +592,15 @@ def gen_history(rng, max_len=40, nosoap=False):
             b = rng.choice(["redirect", "post"])
         binds.append(_idp_cfg(b, m))
     subjects = rng.sample(range(len(NAMEID_POOL)), n_subj)
+    skew = rng.choice([None, None, None, 0, 60, 60, 300])
+    r = rng.random()
+    if r < 0.6:
+        stores, clients = "default", 1
+    else:
+        stores = rng.choice(["shared-dict", "shared-dict", "shared-dictsub", "shared-prefilled"])
+        clients = rng.choice([1, 2, 2, 3, 3, "perstep"])
+        if clients == "perstep":
+            max_len = min(max_len, 12)  # a client object costs ~35 ms
     now = S.NOW0
     marks = []  # instants worth hitting exactly: expiry times and logout deadlines
     logged = set()
@@ -549,10 +631,15 @@ def gen_history(rng, max_len=40, nosoap=False):
                        for a in sorted(rng.sample(range(len(ATTRS)), rng.randint(1, 3)))]
             kind = "ok" if op == "login" else rng.choice(["audience", "expired", "destination"])
             steps.append({"op": "login", "s": s, "i": i, "cond": cond, "sess": sess, "ava": ava,
-                          "sidx": None if rng.random() < 0.15 else rng.randrange(100), "kind": kind})
+                          "sidx": None if rng.random() < 0.15 else rng.randrange(100), "kind": kind,
+                          "form": _form(rng)})
             if kind == "ok":
                 logged.add(s)
-                marks.extend(x for x in (sess, cond) if x is not None)
+                for x in (sess, cond):
+                    if x is not None:
+                        marks.append(x)
+                        if skew:  # the instants around expiry + skew must not be special
+                            marks.extend([x + skew - 1, x + skew])
         elif op == "identity":
             ents = [] if rng.random() < 0.5 else sorted(rng.sample(range(n_idp), rng.randint(1, n_idp)))
             steps.append({"op": "identity", "s": subj(), "ents": ents, "check": rng.random() < 0.8})
@@ -570,6 +657,11 @@ def gen_history(rng, max_len=40, nosoap=False):
             if dt > 0:
                 now += dt
                 steps.append({"op": "advance", "dt": dt})
+                if logged and rng.random() < 0.6:  # look at once
+                    s = rng.choice(sorted(logged))
+                    steps.append(rng.choice([{"op": "info", "s": s, "i": rng.randrange(n_idp), "check": True},
+                                             {"op": "identity", "s": s, "ents": [], "check": True},
+                                             {"op": "stale", "s": s, "srcs": []}]))
         elif op == "logout":
             exp = None if rng.random() < 0.2 else now + rng.choice([-50, -1, 0, 1, 60, 300])
             if exp is not None:
@@ -584,15 +676,23 @@ def gen_history(rng, max_len=40, nosoap=False):
             if sel == "pending":
                 pend_est -= 1
             steps.append({"op": "resp", "sel": sel, "n": rng.randrange(6),
-                          "issuer": -1 if rng.random() < 0.8 else rng.randrange(n_idp)})
+                          "issuer": -1 if rng.random() < 0.8 else rng.randrange(n_idp), "form": _form(rng)})
         elif op == "slo":
             cur = subj()
             named = cur if rng.random() < 0.5 else rng.randrange(n_subj)
             steps.append({"op": "slo", "named": named, "current": cur, "b": rng.choice(["redirect", "post", "soap"]),
-                          "i": rng.randrange(n_idp)})
+                          "i": rng.randrange(n_idp), "form": _form(rng)})
         else:
             steps.append({"op": "reset", "s": rng.randrange(n_subj), "i": rng.randrange(n_idp)})
-    return {"now0": S.NOW0, "cfg": {"idps": binds, "subjects": subjects}, "steps": steps}
+    steps = steps[:max_len]
+    cfg = {"idps": binds, "subjects": subjects}
+    if skew is not None:
+        cfg["skew"] = skew
+    if stores != "default":
+        cfg["stores"], cfg["clients"] = stores, clients
+        for st in steps:
+            st["c"] = rng.randrange(3)
+    return {"now0": S.NOW0, "cfg": cfg, "steps": steps}
 
 
 def directed_cases():
@@ -626,11 +726,40 @@ def directed_cases():
                               {"op": "info", "s": 0, "i": 1, "check": True}]
                     yield {"now0": N, "cfg": cfg, "steps": steps}
 
+    flow = [login(0, 0, 1), login(0, 1, 2), login(1, 0, 3), {"op": "logout", "s": 0, "expire": N + 100},
+            {"op": "resp", "sel": "pending", "n": 0, "issuer": -1}, {"op": "identity", "s": 0, "ents": [], "check": True},
+            {"op": "resp", "sel": "pending", "n": 0, "issuer": -1}, {"op": "identity", "s": 0, "ents": [], "check": True},
+            {"op": "slo", "named": 1, "current": 1, "b": "redirect", "i": 0},
+            {"op": "identity", "s": 1, "ents": [], "check": True}]
+    two = {"idps": [_idp_cfg("redirect"), _idp_cfg("post")], "subjects": [0, 1]}
+    # (a) every received message in every form
+    for form in FORMS:
+        yield {"now0": N, "cfg": two, "steps": [dict(st, form=form) if st["op"] in ("login", "resp", "slo") else st
+                                                  for st in flow]}
+    # (b) stored expiry vs. clock skew: lifetime from Conditions / SessionNotOnOrAfter / both, reads at
+    #     expiry + {-1, 0, 1, skew-1, skew, skew+1}
+    for skew in (0, 60, 300):
+        for cond, sess in ((N + 100, None), (N + 900, N + 100), (None, N + 100)):
+            steps = [{"op": "login", "s": 0, "i": 0, "cond": cond, "sess": sess, "ava": [[0, [1]]], "sidx": 1, "kind": "ok"}]
+            t = N
+            for off in sorted({-1, 0, 1, skew - 1, skew, skew + 1}):
+                if N + 100 + off > t:
+                    steps.append({"op": "advance", "dt": N + 100 + off - t})
+                    t = N + 100 + off
+                    steps += [{"op": "info", "s": 0, "i": 0, "check": True},
+                              {"op": "identity", "s": 0, "ents": [], "check": True}, {"op": "stale", "s": 0, "srcs": []}]
+            yield {"now0": N, "cfg": {"idps": [_idp_cfg("redirect")], "subjects": [0], "skew": skew}, "steps": steps}
+    # (c) several client objects over caller-supplied stores: every step on another object
+    for stores in ("shared-dict", "shared-dictsub", "shared-prefilled"):
+        for clients in (2, 3, "perstep"):
+            yield {"now0": N, "cfg": dict(two, stores=stores, clients=clients),
+                   "steps": [dict(st, c=k % 3) for k, st in enumerate(flow)]}
+
 
 def gen_cases(rng, tier):
     for c in directed_cases():
         yield c
-    n = 5000 if tier == "quick" else 40000
+    n = 4000 if tier == "quick" else 30000
     for k in range(n):
         yield gen_history(rng, 40, nosoap=(k % 3 == 0))
 
